@@ -797,6 +797,41 @@ fn run_regrow(cap: usize, new_cap: usize, at: usize, writes: &[u32], obs: &Rc<Re
     Ok(())
 }
 
+/// The same raw history on a `Cursor<[u8; N]>` that is MOVED between the writes (into a box, back onto the stack): the
+/// array lives inside the cursor, so its address changes, which nothing may depend on.
+fn run_raw_moving<const N: usize>(writes: &[u32]) -> Result<(), Violation> {
+    let mut model: Vec<u8> = Vec::new();
+    let mut cur = Cursor::new([PATTERN; N]);
+    for (i, l) in writes.iter().enumerate() {
+        let buf = vec![(i as u8).wrapping_add(1); *l as usize];
+        let fits = model.len() + buf.len() <= N;
+        let ok;
+        if i % 2 == 0 {
+            let mut boxed = Box::new(cur);
+            ok = boxed.write_all(&buf).is_ok();
+            cur = *boxed;
+        } else {
+            // on the stack (a freed box could be handed out again at the same address; stack and heap never coincide)
+            let mut local = std::hint::black_box(cur);
+            ok = local.write_all(&buf).is_ok();
+            cur = local;
+        }
+        if ok != fits {
+            fail!("raw_write_model", "array_cursor cap={N} (cursor moved between writes): write_all #{i} of {l} bytes at position {} returned {}", model.len(), if ok { "Ok" } else { "Err" });
+        }
+        if fits {
+            model.extend_from_slice(&buf);
+        }
+        if cur.position() != model.len() {
+            fail!("raw_write_model", "array_cursor cap={N} (cursor moved between writes): after write_all #{i} position is {}, accepted bytes are {}", cur.position(), model.len());
+        }
+        if cur.get_ref()[..model.len()] != model[..] {
+            fail!("raw_write_model", "array_cursor cap={N} (cursor moved between writes): after write_all #{i} the accepted bytes were altered");
+        }
+    }
+    Ok(())
+}
+
 /// A device with unlimited room that counts what it is given and keeps nothing.
 struct CountingDevice {
     taken: u64,
@@ -942,6 +977,13 @@ fn run_raw(sink: Sink, cap: usize, writes: &[u32], obs: &Rc<RefCell<Obs>>) -> Re
             };
             if let Some(r) = array_sink(cap, &mut f) {
                 r?;
+            }
+            match cap {
+                3 => run_raw_moving::<3>(writes)?,
+                6 => run_raw_moving::<6>(writes)?,
+                16 => run_raw_moving::<16>(writes)?,
+                64 => run_raw_moving::<64>(writes)?,
+                _ => {}
             }
         }
         _ => {}
